@@ -105,6 +105,8 @@ def _c(v):
         return "[" + ",".join(_c(x) for x in v) + "]"
     if hasattr(v, "__next__"):
         return _c(list(v))
+    if isinstance(v, int) and not isinstance(v, bool):
+        return "int:" + format(v, "x")                   # (decimal repr of huge ints is limited by CPython)
     return repr(v)
 
 
@@ -283,6 +285,13 @@ def gen(rng, tier):
                 for cls in (CLASS_NAMES if big else rng.sample(CLASS_NAMES, 2)):
                     yield SEP.join(["C08", "route", kind, wire(data), sv(off), sv(l), cls, variant,
                                     "1" if rng.random() < 0.3 else "0", str(rng.randrange(10 ** 6)), "0" if big else "30"])
+    # files larger than a memory page, offsets around and beyond 4096 bytes (mmap granularity), few ops each
+    nb = 8 * 4600
+    bigdata = rand_bits(rng, nb)
+    for (off, l, variant) in ((32767, None, "name"), (32768, 5, "name"), (32769, 64, "handle"), (32768, None, "handle"),
+                              (33001, nb - 33001, "name"), (nb, None, "name")) + (((32760, 17, "name"), (36000, None, "handle")) if big else ()):
+        yield SEP.join(["C08", "route", "file", wire(bigdata), sv(off), sv(l), rng.choice(CLASS_NAMES), variant,
+                        "1" if rng.random() < 0.3 else "0", str(rng.randrange(10 ** 6)), "3"])
     # in-memory routes (no window)
     for data in ["", "1", "1011", "110100111000", rand_bits(rng, 24), rand_bits(rng, 48), rand_bits(rng, 60)] + ([rand_bits(rng, 2040)] if big else []):
         for variant in ("bin", "hex", "oct", "iter", "array", "slice", "copy", "cache", "join", "pack"):
